@@ -54,7 +54,7 @@ impl Property for C04 {
         let feats = interp::execute(case, oracles, ctx);
         ctx.nontrivial = feats.contains("queue-full") || feats.contains("sq-wrapped");
         for f in &feats {
-            if !f.starts_with("k:") {
+            if true {
                 ctx.class(f);
             }
         }
